@@ -1235,8 +1235,13 @@ class ABCPropertyGraph(ABCPropertyGraphConstants):
         props = self.link_sliver_to_graph_properties_dict(lsliver)
         self.add_node(node_id=lsliver.node_id, label=ABCPropertyGraph.CLASS_Link, props=props)
         # add edge links to specified interfaces
-        for i in interfaces:
-            self.add_link(node_a=lsliver.node_id, rel=ABCPropertyGraph.REL_CONNECTS, node_b=i)
+        try:
+            for i in interfaces:
+                self.add_link(node_a=lsliver.node_id, rel=ABCPropertyGraph.REL_CONNECTS, node_b=i)
+        except Exception:
+            # an interface could not be linked - do not leave the link node behind
+            self.delete_node(node_id=lsliver.node_id)
+            raise
 
     def add_component_sliver(self, *, parent_node_id: str, component: ComponentSliver):
         """
@@ -1250,12 +1255,17 @@ class ABCPropertyGraph(ABCPropertyGraphConstants):
 
         props = self.component_sliver_to_graph_properties_dict(component)
         self.add_node(node_id=component.node_id, label=ABCPropertyGraph.CLASS_Component, props=props)
-        self.add_link(node_a=parent_node_id, rel=ABCPropertyGraph.REL_HAS, node_b=component.node_id)
-        nsi = component.network_service_info
-        if nsi is not None:
-            for ns in nsi.network_services.values():
-                self.add_network_service_sliver(parent_node_id=component.node_id,
-                                                network_service=ns)
+        try:
+            self.add_link(node_a=parent_node_id, rel=ABCPropertyGraph.REL_HAS, node_b=component.node_id)
+            nsi = component.network_service_info
+            if nsi is not None:
+                for ns in nsi.network_services.values():
+                    self.add_network_service_sliver(parent_node_id=component.node_id,
+                                                    network_service=ns)
+        except Exception:
+            # a service or interface could not be added - remove the component and what was added under it
+            self.remove_component_with_nss_cps_and_links(node_id=component.node_id)
+            raise
 
     def add_network_service_sliver(self, *, parent_node_id: str, network_service: NetworkServiceSliver):
         """
@@ -1274,13 +1284,18 @@ class ABCPropertyGraph(ABCPropertyGraphConstants):
 
         props = self.network_service_sliver_to_graph_properties_dict(network_service)
         self.add_node(node_id=network_service.node_id, label=ABCPropertyGraph.CLASS_NetworkService, props=props)
-        if parent_node_id is not None:
-            self.add_link(node_a=parent_node_id, rel=ABCPropertyGraph.REL_HAS, node_b=network_service.node_id)
-        ii = network_service.interface_info
-        if ii is not None:
-            for i in ii.interfaces.values():
-                self.add_interface_sliver(parent_node_id=network_service.node_id,
-                                          interface=i)
+        try:
+            if parent_node_id is not None:
+                self.add_link(node_a=parent_node_id, rel=ABCPropertyGraph.REL_HAS, node_b=network_service.node_id)
+            ii = network_service.interface_info
+            if ii is not None:
+                for i in ii.interfaces.values():
+                    self.add_interface_sliver(parent_node_id=network_service.node_id,
+                                              interface=i)
+        except Exception:
+            # an interface could not be added - remove the service and the interfaces added so far
+            self.remove_ns_with_cps_and_links(node_id=network_service.node_id)
+            raise
 
     def add_interface_sliver(self, *, parent_node_id: str, interface: InterfaceSliver):
         """
